@@ -200,6 +200,9 @@ pub fn ipv4_syn<const N: usize>(opt_len: usize) -> [u8; N] {
 }
 
 fn run4(buf: &[u8]) -> Result<ObservableTCPPackage, huginn_net_tcp::error::HuginnNetTcpError> {
+    // the timestamp tracker is decided in C19; here it is switched off through the verif hook
+    // (same in the native replay)
+    huginn_net_tcp::uptime::verif_hooks::set_tracker_override(Some(stub_check_ts));
     let mut table: TtlCache<ConnectionKey, TcpTimestamp> = TtlCache::new(4);
     let ip = Ipv4Packet::new(buf).unwrap();
     let r = process_tcp_ipv4(&ip, &mut table);
@@ -211,7 +214,6 @@ fn run4(buf: &[u8]) -> Result<ObservableTCPPackage, huginn_net_tcp::error::Hugin
 /// symbolic TCP flag byte and zero/non-zero seq, ack, urgent pointer; no options
 #[kani::proof]
 #[kani::stub(alloc::fmt::format, crate::util::stub_format)]
-#[kani::stub(huginn_net_tcp::uptime::check_ts_tcp, stub_check_ts)]
 #[kani::unwind(12)]
 pub fn c03_flag_shape() {
     let mut p = ipv4_syn::<40>(0);
@@ -312,7 +314,6 @@ pub fn c03_flag_shape() {
 /// segments that are not part of a handshake yield neither signature (known finding D4)
 #[kani::proof]
 #[kani::stub(alloc::fmt::format, crate::util::stub_format)]
-#[kani::stub(huginn_net_tcp::uptime::check_ts_tcp, stub_check_ts)]
 #[kani::unwind(12)]
 pub fn c03_flag_non_handshake() {
     let mut p = ipv4_syn::<40>(0);
@@ -329,7 +330,6 @@ pub fn c03_flag_non_handshake() {
 // ------------------------------------------------------------------ (b) IP shape
 #[kani::proof]
 #[kani::stub(alloc::fmt::format, crate::util::stub_format)]
-#[kani::stub(huginn_net_tcp::uptime::check_ts_tcp, stub_check_ts)]
 #[kani::unwind(12)]
 pub fn c03_ipv4_shape() {
     let mut p = ipv4_syn::<40>(0);
@@ -392,7 +392,6 @@ pub fn c03_ipv4_shape() {
 
 #[kani::proof]
 #[kani::stub(alloc::fmt::format, crate::util::stub_format)]
-#[kani::stub(huginn_net_tcp::uptime::check_ts_tcp, stub_check_ts)]
 #[kani::unwind(12)]
 pub fn c03_ipv6_shape() {
     let mut p = [0u8; 60];
@@ -416,6 +415,7 @@ pub fn c03_ipv6_shape() {
     p[t + 12] = 0x50;
     p[t + 13] = 0x02;
     p[t + 14] = 0x20;
+    huginn_net_tcp::uptime::verif_hooks::set_tracker_override(Some(stub_check_ts));
     let mut table: TtlCache<ConnectionKey, TcpTimestamp> = TtlCache::new(4);
     let ip = Ipv6Packet::new(&p).unwrap();
     let r = process_tcp_ipv6(&ip, &mut table);
@@ -530,8 +530,7 @@ macro_rules! opt_harness {
     ($name:ident, $n:expr, $area:expr, $kind:expr, $room:expr, $flags:expr, $len:expr) => {
         #[kani::proof]
         #[kani::stub(alloc::fmt::format, crate::util::stub_format)]
-        #[kani::stub(huginn_net_tcp::uptime::check_ts_tcp, stub_check_ts)]
-        #[kani::unwind(16)]
+                #[kani::unwind(16)]
         pub fn $name() {
             option_last::<$n>($area, $kind, $room, $flags, $len)
         }
@@ -556,7 +555,6 @@ opt_harness!(c03_opt_unknown_8, 48, 8, 0x42, 6, 0x02, Some(6));
 /// SYN with an MSS option (symbolic value) and a symbolic window: the rendered window and the MTU
 #[kani::proof]
 #[kani::stub(alloc::fmt::format, crate::util::stub_format)]
-#[kani::stub(huginn_net_tcp::uptime::check_ts_tcp, stub_check_ts)]
 #[kani::unwind(16)]
 pub fn c03_mss_window_shape() {
     let mut p = ipv4_syn::<44>(4);
@@ -624,8 +622,7 @@ macro_rules! mtu_harness {
     ($name:ident, $n:expr, $area:expr) => {
         #[kani::proof]
         #[kani::stub(alloc::fmt::format, crate::util::stub_format)]
-        #[kani::stub(huginn_net_tcp::uptime::check_ts_tcp, stub_check_ts)]
-        #[kani::unwind(24)]
+                #[kani::unwind(24)]
         pub fn $name() {
             mtu_value::<$n>($area)
         }
@@ -664,8 +661,7 @@ macro_rules! eol_harness {
     ($name:ident, $n:expr, $area:expr, $pad:expr) => {
         #[kani::proof]
         #[kani::stub(alloc::fmt::format, crate::util::stub_format)]
-        #[kani::stub(huginn_net_tcp::uptime::check_ts_tcp, stub_check_ts)]
-        #[kani::unwind(16)]
+                #[kani::unwind(16)]
         pub fn $name() {
             eol_padding::<$n>($area, $pad)
         }
